@@ -223,6 +223,7 @@ def run(ctx):
                "%s:%d" % (dms.file, dms.line), "the list is returned under %s" % [f_[-1][:100] for f_ in finals], dms)
         ctx.ob("R3", "mutations-reader:cursor-starts-at-1-and-advances-by-encode_size", ok, "%s:%d" % (dms.file, dms.line), "cursor i is assigned %s" % sorted(x[:110] for x in i_defs), dms)
     node_edges_rules(ctx, prog, "R3")
+    decode_mutation_guards(ctx, prog, "R3")
     # ---- R4 ---------------------------------------------------------------
     for ty, groups in [("SolutionSet", [{"data", "solutions"}]), ("Solution", [{"decision_variables", "predicate_data"}, {"predicate_to_solve"}, {"state_mutations"}])]:
         vs = [f for f in prog.fns.values() if re.search(r"Deserialize<'de> for essential_types::solution::%s>::deserialize::__FieldVisitor as serde::de::Visitor<'de>>::visit_str$" % ty, f.path)]
@@ -292,6 +293,25 @@ def string_to_field(prog, f):
         if fld:
             out[lit] = fld
     return out
+
+
+def decode_mutation_guards(ctx, prog, rid):
+    """The single-mutation reader rejects exactly: fewer than 2 words, a negative key length, a key running past the input,
+    a negative value length, a value running past the input; in particular a key or value of length 0 is accepted."""
+    f = prog.fn("essential_types::solution::decode::decode_mutation")
+    if not ctx.anchor(rid, "fn decode_mutation", f):
+        return
+    ctx.saw(f)
+    rows = [(v, at) for _, v, at in M.return_table(prog, f)]
+    sig = []
+    for v, at in rows:
+        name = re.sub(r"^Result::(Ok|Err)\{essential_types::solution::(decode::MutationDecodeError::|Mutation::)?(\w+).*$", r"\3", v)
+        last = re.sub(r"\(.*", "", at[-1]) if at else ""
+        sig.append((name, len(at), last))
+    want = [("WordsTooShort", 1, "Lt"), ("NegativeKeyLength", 2, "Lt"), ("WordsTooShort", 3, "Le"), ("NegativeValueLength", 4, "Lt"), ("WordsTooShort", 5, "Lt"), ("Mutation", 5, "Le")]
+    neg = [at[-1] for v, at in rows if "NegativeKeyLength" in v]
+    ctx.ob(rid, "decode_mutation:rejects-exactly-the-five-malformed-shapes", sorted(sig) == sorted(want) and neg == ["Lt(bytes[0], 0)"], "%s:%d" % (f.file, f.line),
+           "returns %s; negative-key test %s (a length of 0 is a valid empty key)" % (sig, neg), f)
 
 
 def node_edges_rules(ctx, prog, rid):
